@@ -13,9 +13,11 @@ package main
 // <value>: <hdr>;<questions>;<answers>;<authorities>;<additionals>   (lists joined by |)
 //   hdr      = id.qr.op.aa.tc.rd.ra.z.rc.qd.an.ns.ar
 //   question = namehex~type~class
-//   record   = namehex~type~class~ttl~dlen~datahex~iphex~nshex~cnamehex~ptrhex~txts~txthex~soa~srv~mx
+//   record   = namehex~type~class~ttl~dlen~datahex~iphex~nshex~cnamehex~ptrhex~txts~txthex~soa~srv~mx~naptr~opt~rrsig~dnskey~svcb~uri
 //   txts = n:hex.hex...   soa = mnamehex.rnamehex.serial.refresh.retry.expire.minimum
-//   srv = prio.weight.port.namehex   mx = pref.namehex
+//   srv = prio.weight.port.namehex   mx = pref.namehex   naptr = order.pref.flagshex.servicehex.regexphex.replhex
+//   opt = n:code-datahex.code-datahex   rrsig = covered.alg.labels.ottl.exp.inc.tag.signerhex.sighex
+//   dnskey = flags.proto.alg.keyhex   svcb = prio.targethex.n:key-valhex_key-valhex   uri = prio.weight.targethex
 
 import (
 	"fmt"
@@ -50,8 +52,23 @@ func ldnsR(r *layers.DNSResourceRecord) string {
 	soa := fmt.Sprintf("%s.%s.%d.%d.%d.%d.%d", n6hex(r.SOA.MName), n6hex(r.SOA.RName), r.SOA.Serial, r.SOA.Refresh, r.SOA.Retry, r.SOA.Expire, r.SOA.Minimum)
 	srv := fmt.Sprintf("%d.%d.%d.%s", r.SRV.Priority, r.SRV.Weight, r.SRV.Port, n6hex(r.SRV.Name))
 	mx := fmt.Sprintf("%d.%s", r.MX.Preference, n6hex(r.MX.Name))
-	return fmt.Sprintf("%s~%d~%d~%d~%d~%s~%s~%s~%s~%s~%s~%s~%s~%s~%s", n6hex(r.Name), uint16(r.Type), uint16(r.Class), r.TTL, r.DataLength,
-		n6hex(r.Data), n6hex(r.IP), n6hex(r.NS), n6hex(r.CNAME), n6hex(r.PTR), ldnsTxts(r.TXTs), n6hex(r.TXT), soa, srv, mx)
+	naptr := fmt.Sprintf("%d.%d.%s.%s.%s.%s", r.NAPTR.Order, r.NAPTR.Preference, n6hex(r.NAPTR.Flags), n6hex(r.NAPTR.Service), n6hex(r.NAPTR.Regexp), n6hex(r.NAPTR.Replacement))
+	opts := make([]string, len(r.OPT))
+	for i, o := range r.OPT {
+		opts[i] = fmt.Sprintf("%d-%s", uint16(o.Code), n6hex(o.Data))
+	}
+	g := &r.RRSIG
+	rrsig := fmt.Sprintf("%d.%d.%d.%d.%d.%d.%d.%s.%s", uint16(g.TypeCovered), uint8(g.Algorithm), g.Labels, g.OriginalTTL, g.Expiration, g.Inception, g.KeyTag, n6hex(g.SignerName), n6hex(g.Signature))
+	dnskey := fmt.Sprintf("%d.%d.%d.%s", uint16(r.DNSKEY.Flags), uint8(r.DNSKEY.Protocol), uint8(r.DNSKEY.Algorithm), n6hex(r.DNSKEY.PublicKey))
+	params := make([]string, len(r.SVCB.Params))
+	for i, p := range r.SVCB.Params {
+		params[i] = fmt.Sprintf("%d-%s", uint16(p.Key), n6hex(p.Value))
+	}
+	svcb := fmt.Sprintf("%d.%s.%d:%s", r.SVCB.Priority, n6hex(r.SVCB.Target), len(params), strings.Join(params, "_"))
+	uri := fmt.Sprintf("%d.%d.%s", r.URI.Priority, r.URI.Weight, n6hex(r.URI.Target))
+	return fmt.Sprintf("%s~%d~%d~%d~%d~%s~%s~%s~%s~%s~%s~%s~%s~%s~%s~%s~%d:%s~%s~%s~%s~%s", n6hex(r.Name), uint16(r.Type), uint16(r.Class), r.TTL, r.DataLength,
+		n6hex(r.Data), n6hex(r.IP), n6hex(r.NS), n6hex(r.CNAME), n6hex(r.PTR), ldnsTxts(r.TXTs), n6hex(r.TXT), soa, srv, mx,
+		naptr, len(opts), strings.Join(opts, "."), rrsig, dnskey, svcb, uri)
 }
 
 func ldnsRs(rs []layers.DNSResourceRecord) string {
@@ -160,6 +177,37 @@ func ldnsBuildR(s string) layers.DNSResourceRecord {
 	r.SRV = layers.DNSSRV{Priority: uint16(n6atoi(sv[0])), Weight: uint16(n6atoi(sv[1])), Port: uint16(n6atoi(sv[2])), Name: ldnsBytes(sv[3])}
 	m := strings.Split(f[14], ".")
 	r.MX = layers.DNSMX{Preference: uint16(n6atoi(m[0])), Name: ldnsBytes(m[1])}
+	if len(f) <= 15 {
+		return r
+	}
+	na := strings.Split(f[15], ".")
+	r.NAPTR = layers.DNSNAPTR{Order: uint16(n6atoi(na[0])), Preference: uint16(n6atoi(na[1])), Flags: ldnsBytes(na[2]), Service: ldnsBytes(na[3]),
+		Regexp: ldnsBytes(na[4]), Replacement: ldnsBytes(na[5])}
+	ocnt, olist, _ := strings.Cut(f[16], ":")
+	if n6atoi(ocnt) > 0 {
+		for _, o := range strings.Split(olist, ".") {
+			c, d, _ := strings.Cut(o, "-")
+			r.OPT = append(r.OPT, layers.DNSOPT{Code: layers.DNSOptionCode(n6atoi(c)), Data: n6unhex(d)})
+		}
+	}
+	sg := strings.Split(f[17], ".")
+	r.RRSIG = layers.DNSRRSIG{TypeCovered: layers.DNSType(n6atoi(sg[0])), Algorithm: layers.DNSSECAlgorithm(n6atoi(sg[1])), Labels: uint8(n6atoi(sg[2])),
+		OriginalTTL: uint32(n6atoi(sg[3])), Expiration: uint32(n6atoi(sg[4])), Inception: uint32(n6atoi(sg[5])), KeyTag: uint16(n6atoi(sg[6])),
+		SignerName: ldnsBytes(sg[7]), Signature: ldnsBytes(sg[8])}
+	dk := strings.Split(f[18], ".")
+	r.DNSKEY = layers.DNSKEY{Flags: layers.DNSKEYFlag(n6atoi(dk[0])), Protocol: layers.DNSKEYProtocol(n6atoi(dk[1])), Algorithm: layers.DNSSECAlgorithm(n6atoi(dk[2])),
+		PublicKey: ldnsBytes(dk[3])}
+	sb := strings.Split(f[19], ".")
+	r.SVCB = layers.DNSSVCB{Priority: uint16(n6atoi(sb[0])), Target: ldnsBytes(sb[1])}
+	pcnt, plist, _ := strings.Cut(sb[2], ":")
+	if n6atoi(pcnt) > 0 {
+		for _, o := range strings.Split(plist, "_") {
+			k, v, _ := strings.Cut(o, "-")
+			r.SVCB.Params = append(r.SVCB.Params, layers.DNSSvcParam{Key: layers.DNSSvcParamKey(n6atoi(k)), Value: n6unhex(v)})
+		}
+	}
+	u := strings.Split(f[20], ".")
+	r.URI = layers.DNSURI{Priority: uint16(n6atoi(u[0])), Weight: uint16(n6atoi(u[1])), Target: ldnsBytes(u[2])}
 	return r
 }
 
@@ -546,7 +594,7 @@ func (m *ldnsMsg) u32(v uint32) {
 
 func ldnsStyle(rng *rand.Rand) int { return n6pick(rng, 0, 0, 0, 1, 1, 1, 2, 3, 4, 5) }
 
-var ldnsTypes1 = []int{1, 28, 2, 5, 12, 15, 16, 6, 33, 13}
+var ldnsTypes1 = []int{1, 28, 2, 5, 12, 15, 16, 6, 33, 13, 41, 256, 48, 35, 64, 65, 46}
 
 // rdata of the given type appended at the end of m (names may point backwards)
 func (m *ldnsMsg) rdata(rng *rand.Rand, t int) {
@@ -573,6 +621,38 @@ func (m *ldnsMsg) rdata(rng *rand.Rand, t int) {
 	case 33:
 		m.b = append(m.b, n6randBytes(rng, 6)...)
 		m.name(rng, ldnsStyle(rng))
+	case 256: // URI
+		m.b = append(m.b, n6randBytes(rng, 4+n6pick(rng, 0, 1, 12, 40))...)
+	case 41: // OPT: options code, length, data
+		for i, n := 0, rng.Intn(4); i < n; i++ {
+			l := n6pick(rng, 0, 1, 4, 8, 20)
+			m.u16(n6pick(rng, 3, 8, 10, 12, rng.Intn(65536)))
+			m.u16(l)
+			m.b = append(m.b, n6randBytes(rng, l)...)
+		}
+	case 48: // DNSKEY
+		m.b = append(m.b, n6randBytes(rng, 4+n6pick(rng, 0, 1, 32, 64))...)
+	case 35: // NAPTR
+		m.b = append(m.b, n6randBytes(rng, 4)...)
+		for i := 0; i < 3; i++ {
+			l := n6pick(rng, 0, 1, 5, 30)
+			m.b = append(m.b, byte(l))
+			m.b = append(m.b, n6randBytes(rng, l)...)
+		}
+		m.name(rng, ldnsStyle(rng))
+	case 64, 65: // SVCB, HTTPS
+		m.u16(rng.Intn(3))
+		m.name(rng, ldnsStyle(rng))
+		for i, n := 0, rng.Intn(4); i < n; i++ {
+			l := n6pick(rng, 0, 2, 4, 16)
+			m.u16(n6pick(rng, 0, 1, 3, 4, 6, rng.Intn(65536)))
+			m.u16(l)
+			m.b = append(m.b, n6randBytes(rng, l)...)
+		}
+	case 46: // RRSIG
+		m.b = append(m.b, n6randBytes(rng, 18)...)
+		m.name(rng, ldnsStyle(rng))
+		m.b = append(m.b, n6randBytes(rng, n6pick(rng, 0, 1, 32, 64))...)
 	default:
 		m.b = append(m.b, n6randBytes(rng, rng.Intn(12))...)
 	}
@@ -580,10 +660,14 @@ func (m *ldnsMsg) rdata(rng *rand.Rand, t int) {
 
 // rr appends one record; returns the offset of its RDLENGTH field
 func (m *ldnsMsg) rr(rng *rand.Rand, t int) int {
-	m.name(rng, ldnsStyle(rng))
+	if t == 41 && rng.Intn(3) != 0 {
+		m.b = append(m.b, 0)
+	} else {
+		m.name(rng, ldnsStyle(rng))
+	}
 	m.u16(t)
-	m.u16(n6pick(rng, 1, 1, 1, 255, 3, rng.Intn(65536)))
-	m.u32(uint32(n6pick(rng, 0, 300, 86400, int(rng.Uint32()>>1))))
+	m.u16(n6pick(rng, 1, 1, 1, 255, 3, 4096, rng.Intn(65536)))
+	m.u32(uint32(n6pick(rng, 0, 300, 86400, 0x01000000, 0x17008000, int(rng.Uint32()>>1), int(rng.Uint32()))))
 	lenAt := len(m.b)
 	m.u16(0)
 	m.rdata(rng, t)
@@ -639,9 +723,9 @@ func ldnsRandTypes(rng *rand.Rand, n int) []int {
 	return t
 }
 
-// types whose RDATA decoder is not in the model yet: inputs using them with any RDLENGTH are kept
-// out of the comparison (the Sweep sub-check covers them)
-var ldnsUnmodelled = map[int]bool{256: true, 35: true, 41: true, 46: true, 48: true, 64: true, 65: true}
+// types whose RDATA decoder is not in the model (none any more): inputs using them would be kept
+// out of the comparison
+var ldnsUnmodelled = map[int]bool{}
 
 // ldnsModelled walks the message the way the decoder does (without decompressing) and reports
 // whether no record with an unmodelled RDATA type and RDLENGTH > 0 is reached.
@@ -824,9 +908,42 @@ func ldnsValueRand(rng *rand.Rand, inRange bool) string {
 		case 15:
 			mxn = nm()
 		}
-		return fmt.Sprintf("%s~%d~%d~%d~%d~%s~%s~%s~%s~%s~%d:%s~%s~%s.%s.%d.%d.%d.%d.%d~%d.%d.%d.%s~%d.%s", nm(), t, n6pick(rng, 1, 1, 255, rng.Intn(65536)), rng.Uint32(),
+		hx := func(n int) string { return n6hex(n6randBytes(rng, n)) }
+		big := func() int {
+			if !inRange && rng.Intn(6) == 0 {
+				return n6pick(rng, 256, 300)
+			}
+			return n6pick(rng, 0, 1, 8, 40, 255)
+		}
+		nan, sgn, sbt := "", "", ""
+		switch t {
+		case 35:
+			nan = nm()
+		case 46:
+			sgn = nm()
+		case 64, 65:
+			sbt = nm()
+		}
+		var opts, params []string
+		if t == 41 || !inRange && rng.Intn(5) == 0 {
+			for i, n := 0, rng.Intn(4); i < n; i++ {
+				opts = append(opts, fmt.Sprintf("%d-%s", rng.Intn(65536), hx(n6pick(rng, 0, 1, 8, 30))))
+			}
+		}
+		if t == 64 || t == 65 || !inRange && rng.Intn(5) == 0 {
+			for i, n := 0, rng.Intn(4); i < n; i++ {
+				params = append(params, fmt.Sprintf("%d-%s", rng.Intn(65536), hx(n6pick(rng, 0, 2, 4, 16))))
+			}
+		}
+		naptr := fmt.Sprintf("%d.%d.%s.%s.%s.%s", rng.Intn(65536), rng.Intn(65536), hx(big()), hx(big()), hx(big()), nan)
+		rrsig := fmt.Sprintf("%d.%d.%d.%d.%d.%d.%d.%s.%s", rng.Intn(65536), rng.Intn(256), rng.Intn(256), rng.Uint32(), rng.Uint32(), rng.Uint32(), rng.Intn(65536), sgn, hx(n6pick(rng, 0, 1, 64)))
+		dnskey := fmt.Sprintf("%d.%d.%d.%s", rng.Intn(65536), rng.Intn(256), rng.Intn(256), hx(n6pick(rng, 0, 1, 32)))
+		svcb := fmt.Sprintf("%d.%s.%d:%s", rng.Intn(65536), sbt, len(params), strings.Join(params, "_"))
+		uri := fmt.Sprintf("%d.%d.%s", rng.Intn(65536), rng.Intn(65536), hx(n6pick(rng, 0, 1, 20)))
+		return fmt.Sprintf("%s~%d~%d~%d~%d~%s~%s~%s~%s~%s~%d:%s~%s~%s.%s.%d.%d.%d.%d.%d~%d.%d.%d.%s~%d.%s~%s~%d:%s~%s~%s~%s~%s", nm(), t, n6pick(rng, 1, 1, 255, rng.Intn(65536)), rng.Uint32(),
 			rng.Intn(65536), "", ip, ns, cn, pt, ntx, strings.Join(txts, "."), "", sm, sr, rng.Uint32(), rng.Uint32(), rng.Uint32(), rng.Uint32(), rng.Uint32(),
-			rng.Intn(65536), rng.Intn(65536), rng.Intn(65536), sv, rng.Intn(65536), mxn)
+			rng.Intn(65536), rng.Intn(65536), rng.Intn(65536), sv, rng.Intn(65536), mxn,
+			naptr, len(opts), strings.Join(opts, "."), rrsig, dnskey, svcb, uri)
 	}
 	list := func(n int) string {
 		var p []string
